@@ -535,6 +535,12 @@ impl ErasedNode for Node {
         crate::verif::ev("became_necessary", &[("n", crate::verif::nix(self))]);
         state.num_nodes_became_necessary.increment();
         self.maybe_handle_after_stabilisation(state);
+        if let Some(Kind::MapRef(mapref)) = self.kind() {
+            /* [did_change] is only refreshed by [child_changed], which reaches necessary parents
+            only.  Whatever our child did while we were unnecessary was missed, so the cached
+            flag says nothing about the next recompute: propagate. */
+            mapref.did_change.set(true);
+        }
         /* Since [node] became necessary, to restore the invariant, we need to:
         - add parent pointers to [node] from its children.
         - set [node]'s height.
